@@ -6,4 +6,5 @@ export GOFLAGS=-mod=mod GOPROXY=off GOSUMDB=off GOTOOLCHAIN=local
 mkdir -p build evidence replays
 (cd lean && lake build TM drv && for f in Props/C*.lean; do lake build Props.$(basename $f .lean) || true; done)
 (cd harness && cp /repo/go.sum . 2>/dev/null || true; go build -tags verif -o ../build/verifh-setup . && rm -f ../build/verifh-setup)
+(cd tools/lockextract && go build -o ../../build/lockextract .)
 echo setup done
